@@ -540,8 +540,46 @@ def rule_r3(prog, res) -> None:
         res.violation("C18.R3", gp, gp.node, "the sparse probe is not gathered in a single chunk-wise pass", key_extra="probe-shape")
 
 
+def rule_r4(prog, res) -> None:
+    """the configured chunk size reaches the iteration state of every reader"""
+    base = prog.find_class("DataChunkReader")
+    n = 0
+    for ci in prog.subclasses(base):
+        init = ci.methods.get("__init__")
+        if init is None or "chunksize" not in init.param_names():
+            continue
+        n += 1
+        res.touch(init)
+        sup = [c for c in calls_in(init) if isinstance(c.func, ast.Attribute) and c.func.attr == "__init__" and isinstance(c.func.value, ast.Call) and isinstance(c.func.value.func, ast.Name) and c.func.value.func.id == "super"]
+        stores = [x for x in walk_no_nested(init.node) if isinstance(x, ast.Assign) and any(unparse(t) == "self.chunksize" for t in x.targets)]
+        if sup:
+            k = kwarg(sup[0], "chunksize")
+            if k is None or not (isinstance(k, ast.Name) and k.id == "chunksize"):
+                res.violation(
+                    "C18.R4",
+                    init,
+                    sup[0],
+                    f"{ci.name} does not forward chunksize= to the base reader, whose constructor then resets the chunk size to the default (16.7 M records): the input is read in one piece",
+                    key_extra=f"chunksize-not-forwarded-{ci.name}",
+                )
+                continue
+        elif not stores:
+            res.violation("C18.R4", init, init.node, f"{ci.name} never stores the configured chunk size", key_extra=f"chunksize-unused-{ci.name}")
+            continue
+        for s in stores:
+            names = {x.id for x in ast.walk(s.value) if isinstance(x, ast.Name)}
+            if "chunksize" not in names:
+                res.violation("C18.R4", init, s, f"{ci.name}.chunksize is set to {unparse(s.value)}, independent of the requested chunk size", key_extra=f"chunksize-ignored-{ci.name}")
+                break
+        else:
+            res.ok("C18.R4", res.site(init), "chunksize parameter is stored / forwarded to the base reader")
+    if n < 5:
+        raise AnalysisError(f"C18.R4: only {n} reader constructors with a chunksize parameter, minimum 5")
+
+
 RULES = [
     ("C18.R1", rule_r1, QUICK),
     ("C18.R2", rule_r2, QUICK),
     ("C18.R3", rule_r3, QUICK),
+    ("C18.R4", rule_r4, QUICK),
 ]
